@@ -110,6 +110,26 @@ func overlayFor(repo, verif string, dirs []string, genDir string) (map[string]st
 			}
 		}
 	}
+	// parser.go: the default read-buffer size is scaled down (4096 -> 4) so that buffer growth, compaction and anything
+	// keyed on that constant happen within the stream lengths the harnesses explore; generated from the CURRENT file
+	for _, d := range dirs {
+		if d != "root" {
+			continue
+		}
+		src, err := os.ReadFile(filepath.Join(repo, "parser.go"))
+		if err != nil {
+			continue
+		}
+		txt := string(src)
+		if strings.Count(txt, "defaultBufSize = 4096") == 1 {
+			txt = strings.Replace(txt, "defaultBufSize = 4096", "defaultBufSize = 4", 1)
+			os.MkdirAll(filepath.Join(genDir, "root_parser"), 0o755)
+			gen := filepath.Join(genDir, "root_parser", "parser.go")
+			if err := os.WriteFile(gen, []byte(txt), 0o644); err == nil {
+				ov[filepath.Join(repo, "parser.go")] = gen
+			}
+		}
+	}
 	// store/sql runs over the in-memory stand-in for database/sql of harness/sql/vsql.go
 	for _, d := range dirs {
 		if d != "sql" {
